@@ -55,6 +55,14 @@ f_next_bit (void)
       if (start % 6 == 5)
         {
           which = (start / 6) + 1;
+          if (which == (int)len)
+            {
+              /* start was the last bit of the string: the next byte is the terminator,
+               * not a bit pattern */
+              free_string_svalue (sp);
+              put_number (-1);
+              return;
+            }
           value = sp->u.string[which] - ' ';
         }
       else
